@@ -94,9 +94,30 @@ Definition check_get (lay : option (list (bytes * path))) (c : cache) (t : tree)
   | _, _ => exact
   end.
 
-(** classifier bits of one lookup, evaluated on the same state *)
-Definition get_known (lay : option (list (bytes * path))) (c : cache) (t : tree) (id : bytes) : bool :=
-  c19 t || c19_cache_stale c t id ||
-  match lay with Some m => c19_layout_path_occupied t (amap m id) | None => false end.
+(** * purge_object against the observation: result class and the objects the
+    repository holds afterwards ([t_after] is the abstraction of the real tree
+    after the call; empty directories purge prunes are not compared).  With
+    several scan candidates the real scan may have picked any of them. *)
+Definition same_objects (t1 t2 : tree) : bool :=
+  perm_eqb pid_eqb (listed_pairs (iter_items None t1)) (listed_pairs (iter_items None t2)).
+
+Definition purge_res_eqb (r : purge_res) (ok : bool) : bool :=
+  match r with POk => ok | PErr => negb ok end.
+
+Definition check_purge (lay : option (list (bytes * path))) (c : cache) (t : tree) (id : bytes)
+  (ok : bool) (t_after : tree) : bool :=
+  let '(r, t', _) := purge_object (layout_fun lay) c t id in
+  let exact := purge_res_eqb r ok && same_objects t' t_after in
+  match cache_get c id, lay with
+  | None, None =>
+      let cands := listed_pairs (iter_items (Some (bytes_eqb id)) t) in
+      match cands with
+      | _ :: _ :: _ =>
+          existsb (fun pj => let '(r2, t2) := purge_at t id (fst pj) in
+                             purge_res_eqb r2 ok && same_objects t2 t_after) cands
+      | _ => exact
+      end
+  | _, _ => exact
+  end.
 
 Definition tree_ok (t : tree) : bool := names_unique t.
